@@ -4,14 +4,17 @@
     PARTIAL: proved -- every frame returned by build_message is 8..1029 bytes, starts with 0xD3 and six zero
     bits, carries its payload size in the length field and a checksum for which MessageFrame::new accepts it
     (the model's CRC-24Q specification), whatever builder history came before (C12); messages without a wire
-    form are refused; the bit writer never panics for any width 1..carrier.  Not proved here: that no encoder
-    above the bit writer panics for any constructible value (float/integer conversions, MSM index arithmetic)
-    and that the first 12 payload bits are the message number -- both covered by the ENCODE correspondence in
-    the two build profiles and the impl-side probes. *)
+    form are refused; the bit writer never panics for any width 1..carrier; and for the 55 plain layouts
+    (fields, structs, the three list forms, descriptor strings; Proofs/EncodeTotal.v): encoding a well-typed
+    value -- any f32/f64 including NaN and infinities, any integer of the field's Rust type, lists up to
+    their capacity, any text -- never panics, neither does build_message, and the frame carries the message's
+    own number.  Not proved here: the same for the MSM, SSR code-bias, 1230 and 1029 encoders (index
+    arithmetic, sorting) -- covered by the ENCODE correspondence in the two build profiles and the probes. *)
 From Coq Require Import ZArith List Lia Bool.
 From RtcmModel Require Import Types BitIO Layout Crc Frame Message Top.
 From RtcmGen Require Import GenSignals GenLayouts.
-From RtcmProofs Require Import ListZ FrameProofs BuilderProofs SizeProofs BuildProofs BitProofs.
+From RtcmProofs Require Import ListZ FrameProofs BuilderProofs SizeProofs BuildProofs BitProofs FieldProofs RoundTrip RoundTripFrame EncodeTotal.
+From RtcmGen Require Import GenMessages.
 Import ListNotations.
 Open Scope Z_scope.
 
@@ -69,6 +72,60 @@ Theorem C09_put_no_panic : forall k bits data offset value len,
   8 <= bits -> 1 <= len <= bits -> 0 <= offset -> bytes_ok data = true -> put k bits data offset value len <> Panic.
 Proof. exact put_no_panic. Qed.
 
+(** table obligation: in every plain layout each capacity is below 2^(width of its count field) *)
+Lemma plain_counts_ok : forallb (fun m => negb (plain (snd m)) || counts_ok (snd m)) messages = true.
+Proof. vm_compute. reflexivity. Qed.
+Lemma numbers_fit : forallb (fun m => (0 <=? fst m) && (fst m <? 4096)) messages = true.
+Proof. vm_compute. reflexivity. Qed.
+
+(** plain layouts: encoding a well-typed value never panics, at any position of any buffer *)
+Theorem C09_encode_no_panic_plain : forall n lay v d o, In (n, lay) messages -> plain lay = true -> wt lay v ->
+  bytes_ok d = true -> 0 <= o -> t_encode_frag lay (d, o) v <> Panic.
+Proof.
+  intros n lay v d o Hin Hp Hw Hb Ho.
+  pose proof plain_counts_ok as Hc. rewrite forallb_forall in Hc. specialize (Hc _ Hin). cbn [snd] in Hc. rewrite Hp in Hc. cbn [negb orb] in Hc.
+  exact (encode_no_panic sig_table ssr_table_1059 ssr_table_1065 SAT_CAP_1059 SAT_CAP_1065 lay Hp Hc v d o Hw Hb Ho).
+Qed.
+
+(** ... and neither does build_message, from any reachable builder *)
+Theorem C09_build_no_panic_plain : forall b n v lay, lookup n messages = Some lay -> plain lay = true -> wt lay v ->
+  reach sig_table ssr_table_1059 ssr_table_1065 SAT_CAP_1059 SAT_CAP_1065 messages b ->
+  snd (t_build b (MTyped n v)) <> Panic.
+Proof.
+  intros b n v lay Hlk Hp Hw Hr. unfold t_build.
+  rewrite (history_independent sig_table ssr_table_1059 ssr_table_1065 SAT_CAP_1059 SAT_CAP_1065 messages b (MTyped n v) Hr).
+  unfold build_fresh, build. cbn [builder_new b_has_run b_data]. change (211 :: repeat 0 1028) with fresh_data.
+  pose proof (lookup_In messages n lay Hlk) as Hin.
+  pose proof plain_counts_ok as Hc. rewrite forallb_forall in Hc. specialize (Hc _ Hin). cbn [snd] in Hc. rewrite Hp in Hc. cbn [negb orb] in Hc.
+  pose proof (build_no_panic sig_table ssr_table_1059 ssr_table_1065 SAT_CAP_1059 SAT_CAP_1065 messages
+                (proj1 caps_nonneg) (proj2 caps_nonneg) layouts_fit n v lay Hlk Hp Hc Hw) as Hn.
+  destruct (build_on sig_table ssr_table_1059 ssr_table_1065 SAT_CAP_1059 SAT_CAP_1065 messages fresh_data (MTyped n v)) as [[fr d']|e|]; cbn [snd]; [discriminate|discriminate|contradiction].
+Qed.
+
+(** ... and the frame carries the message's own number in its first 12 payload bits *)
+Theorem C09_number_plain : forall b n v lay fr, lookup n messages = Some lay -> plain lay = true ->
+  reach sig_table ssr_table_1059 ssr_table_1065 SAT_CAP_1059 SAT_CAP_1065 messages b ->
+  snd (t_build b (MTyped n v)) = Ok fr -> exists f, frame_new fr = Ok f /\ fr_number f = Some n.
+Proof.
+  intros b n v lay fr Hlk Hp Hr H. unfold t_build in H.
+  rewrite (history_independent sig_table ssr_table_1059 ssr_table_1065 SAT_CAP_1059 SAT_CAP_1065 messages b (MTyped n v) Hr) in H.
+  unfold build_fresh, build in H. cbn [builder_new b_has_run b_data] in H. change (211 :: repeat 0 1028) with fresh_data in H.
+  destruct (build_on sig_table ssr_table_1059 ssr_table_1065 SAT_CAP_1059 SAT_CAP_1065 messages fresh_data (MTyped n v)) as [[fr0 d']|e|] eqn:E; cbn [snd] in H; try discriminate.
+  inversion H; subst fr0.
+  pose proof (lookup_In messages n lay Hlk) as Hin.
+  pose proof plain_counts_ok as Hc. rewrite forallb_forall in Hc. specialize (Hc _ Hin). cbn [snd] in Hc. rewrite Hp in Hc. cbn [negb orb] in Hc.
+  destruct (build_decodes sig_table ssr_table_1059 ssr_table_1065 SAT_CAP_1059 SAT_CAP_1065 messages
+              (proj1 caps_nonneg) (proj2 caps_nonneg) layouts_fit numbers_fit n v fr d' lay Hlk Hp Hc E) as [f [v' [Hn [Hnum _]]]].
+  exists f. split; assumption.
+Qed.
+
+(** non-vacuity of [wt]: a 1005 message (u16/u8/f64 fields) is well typed *)
+Example C09_wt_example : wt layout_1005 (VStruct [VInt 1; VInt 2; VInt 0; VInt 1; VInt 0; VInt 1; VF64 0; VInt 0; VInt 0; VF64 0; VInt 0; VF64 0]) /\ plain layout_1005 = true.
+Proof.
+  split; [|vm_compute; reflexivity].
+  unfold layout_1005. apply wt_struct. repeat (constructor; [apply wt_fld; vm_compute; tauto|]). constructor.
+Qed.
+
 Example C09_example :
   exists fr, t_build_fresh (MTyped 1005 (VStruct [VInt 1; VInt 2; VInt 0; VInt 1; VInt 0; VInt 1; VF64 0; VInt 0; VInt 0; VF64 0; VInt 0; VF64 0])) = Ok fr /\ zlen fr = 25.
 Proof. eexists. split; vm_compute; reflexivity. Qed.
@@ -76,3 +133,6 @@ Proof. eexists. split; vm_compute; reflexivity. Qed.
 Print Assumptions C09_well_formed.
 Print Assumptions C09_no_wire_form.
 Print Assumptions C09_fits.
+Print Assumptions C09_encode_no_panic_plain.
+Print Assumptions C09_build_no_panic_plain.
+Print Assumptions C09_number_plain.
